@@ -1,7 +1,7 @@
 /-
-C05 line-protocol driver.   One case = one line of three fields:
+C05 line-protocol driver.   One case = one line of three or four fields:
 
-    <routes> <errors> <request>
+    <routes> <errors> <request> [<named routes>]
 
   routes   comma-separated prefix notation:  N route^N
   route    G T S set^S H handler^H      G group number (0 = none), T terminal 0/1
@@ -13,9 +13,12 @@ C05 line-protocol driver.   One case = one line of three fields:
   handler  p ID | r ID ST | w ID PATH | f ID ST | s routes E [routes]     (E = 1: error routes follow)
          | x SRC                        the real `error` handler            SRC = 0 no status_code,
          | y SRC                        the real `static_response` handler        1 "{http.error.status_code}",
+         | i NAME                       the real `invoke` handler (NAME ≥ 1)
                                                                                   2 not a number, else the number
   errors   `-` (Server.Errors == nil) or a route list
   request  method,host,path,header      indices into the alphabets (2, 3, 6, 3; header 0 = absent)
+  named    a route list: the server's named routes "1", "2", …; the route named j may only invoke
+           names > j (no cycles: a cycle is unbounded recursion in the Go code)
 
 Answer:  `t=<id.path.err,…|-> s=<status|->`   (err = `n` or the status in the request context;
          `err/repl` when the `{http.error.status_code}` placeholder the handler saw differs from it)
@@ -120,6 +123,9 @@ partial def pHandler : P Handler
   | "y" :: toks => do
     let (s, toks) ← pNat toks
     pure (.answer (srcOf s), toks)
+  | "i" :: toks => do
+    let (n, toks) ← pNat toks
+    pure (.invoke n, toks)
   | "s" :: toks => do
     let (rs, toks) ← pRoutes toks
     let (e, toks) ← pNat toks
@@ -202,6 +208,7 @@ def hValid : Handler → Bool
   | .fail _ st => errStatusOk st
   | .raise src => srcOk 400 src
   | .answer src => srcOk 200 src
+  | .invoke n => n ≥ 1
   | .sub rs _ errs => rsValid rs && rsValid errs
 def rsValid : List Route → Bool
   | [] => true
@@ -228,16 +235,19 @@ def showTrace (t : Trace) : String :=
 def showResult (x : Result) : String :=
   "t=" ++ showTrace x.trace ++ " s=" ++ (match x.status with | none => "-" | some s => toString s)
 
+def handleCase (routes errs req named : String) : String :=
+  match parseRoutes routes, parseReq req, parseRoutes named with
+  | some rs, some r, some env =>
+    if !rsValid rs || !rsValid env || !namedValid 0 env then "bad-op" else
+    if errs == "-" then showResult (serveNamed env rs false [] r)
+    else match parseRoutes errs with
+      | some es => if rsValid es then showResult (serveNamed env rs true es r) else "bad-op"
+      | none => "bad-op"
+  | _, _, _ => "bad-op"
+
 def handle : List String → String
-  | [routes, errs, req] =>
-    match parseRoutes routes, parseReq req with
-    | some rs, some r =>
-      if !rsValid rs then "bad-op" else
-      if errs == "-" then showResult (serve rs false [] r)
-      else match parseRoutes errs with
-        | some es => if rsValid es then showResult (serve rs true es r) else "bad-op"
-        | none => "bad-op"
-    | _, _ => "bad-op"
+  | [routes, errs, req] => handleCase routes errs req "0"
+  | [routes, errs, req, named] => if named == "0" then "bad-op" else handleCase routes errs req named
   | _ => "bad-op"
 
 /-! encoder (used to export proved counter-examples as protocol lines) -/
@@ -273,6 +283,7 @@ def encHandler : Handler → List String
   | .fail id st => ["f", toString id, toString st]
   | .raise src => ["x", toString (srcNo src)]
   | .answer src => ["y", toString (srcNo src)]
+  | .invoke n => ["i", toString n]
   | .sub rs hasErrs errs =>
     ["s", toString rs.length] ++ encRoutes rs ++
       (if hasErrs then ["1", toString errs.length] ++ encRoutes errs else ["0"])
